@@ -253,7 +253,7 @@ StrQueryDeviations(e) ==
          o |-> WithSg(QOk(e), CmpStr(e.pre, e.d, e.s, e.dmax, "upper"))]}
   ELSE IF e.fn = "strcoll_s" /\ QViol(e, TRUE, FALSE) = {}
   THEN {[name |-> "Dev_strcoll_unbounded", props |-> {"C10", "C02"},
-         o |-> WithSg(QOk(e), CmpStr(e.pre, e.d, e.s, Len(e.pre), "none"))],
+         o |-> WithSg(QOk(e), CmpStr(e.pre, e.d, e.s, Len(e.pre) - Max(e.d, e.s) + 1, "none"))],     \* as far as the arena reaches
         [name |-> "Dev_strcoll_unbounded", props |-> {"C02"},
          o |-> WithFault(Out("err", {-9999}, {<<>>}, Same0(e.pre)), "r", {AnyV})]}
   ELSE {}
